@@ -735,16 +735,17 @@ def prefix_read_rule(F, rep, rid, select, collect=False):
 
 
 def enum_enumerator_rule(F, rep, rid, select):
-    """`TypedArrayKind::all()`, `SubTypeTag::all()`: the tag walk of the materialiser and the emptiness test iterate
+    """`TypedArrayKind::all()`, `SubTypeTag::all()` (or the constants behind them): the tag walk of the materialiser and the emptiness test iterate
     these lists instead of the enum.  A list that misses a variant (or names one twice, which silently collapses in a
     set) makes every type that carries the WHOLE tag lose the values of the missing kind on its way to code
-    generation.  Decided for every parameterless function whose result is a list of values of one fieldless enum,
-    written as a literal: the listed variants are exactly the enum's variants, each once."""
+    generation.  Decided for every parameterless function whose result is a list of values of one fieldless enum, and every
+    constant that is such a list, written as a literal: the listed variants are exactly the enum's variants, each once."""
     n = 0
     for g in sorted(F.hir):
         f = F.fns.get(g)
-        if f is None or not select(f) or (f.inputs or []):
+        if f is None or not select(f) or (f.inputs or []) or "Closure" in str(f.kind) or "AnonConst" in str(f.kind):
             continue
+        is_const = "Const" in str(f.kind) or "Static" in str(f.kind)
         for node in walk(F.hir[g]["body"]):
             if node["k"] != "Array":
                 continue
@@ -756,7 +757,8 @@ def enum_enumerator_rule(F, rep, rid, select):
                 continue
             en = enums.pop()
             adt = F.adts.get(en)
-            if adt is None or adt.get("kind") != "Enum" or any(v["fields"] for v in adt["variants"]) or en.rsplit("::", 1)[-1] not in (f.output or ""):
+            # (the list may live in the enumerating function or in a constant it hands out)
+            if adt is None or adt.get("kind") != "Enum" or any(v["fields"] for v in adt["variants"]) or (not is_const and en.rsplit("::", 1)[-1] not in (f.output or "")):
                 continue
             n += 1
             listed = [e["def"].rsplit("::", 1)[-1] for e in els]
